@@ -162,6 +162,16 @@ Theorem C07p_reports_N (S : SOps) {P} (init : nat -> list P) ratio (ps : list P)
   length (snd (@resample_prior S P init ratio ps lw u1)) = length ps.
 Proof. exact (prior_reports_N S init ratio ps lw u1). Qed.
 
+(* the resampled part obeys the count bound with respect to the renormalised kept weights
+   (tmp_lw = kept log-weights minus their log-sum-exp; rpar = positions selected among the kept ones) *)
+Theorem C07p_count_bound {P} (ratio : R) (ps : list P) (lw : list R) (u1 : R) :
+  let tl : list R := tmp_lw ROps ratio ps lw in
+  (0 < length tl)%nat -> 0 < u1 -> u1 * INR (length tl) < 1 ->
+  (sumR (map exp tl) = 1) /\
+  (forall i, (i < length tl)%nat ->
+   Rabs (INR (count_occ Nat.eq_dec (rpar ROps ratio ps lw u1) i) - INR (length tl) * exp (nth i tl 0)) < 1).
+Proof. exact (prior_count_bound ratio ps lw u1). Qed.
+
 (* ---- the hypotheses are satisfiable; the executable model on exact rationals ---- *)
 
 Example C07_hypotheses_satisfiable :
@@ -203,3 +213,4 @@ Print Assumptions C07p_parents.
 Print Assumptions C07p_copy.
 Print Assumptions C07p_uniform.
 Print Assumptions C07p_reports_N.
+Print Assumptions C07p_count_bound.
